@@ -159,6 +159,18 @@ CLAIMED = {
   note=COMMON_NOTE + "multiprocessing semantics (FIFO queue, feeder flush before exit code, get timeout only on empty pipe) are assumptions "
        "validated on every logged trace; task_timeout, outside kills, KeyboardInterrupt not modelled.",
   design="§5 C12", technique="Lean 4 proof (inductive invariant over all schedules, liveness under weak fairness) + trace validation against real runs"),
+ "C09": dict(
+  text="Lean theorems over the model of the patch side of tabparser (blocks_and_context with is_patch, every block_exit variant, patch(), "
+       "cmd_paths) and of deploy (match_deploy_rule, make_cmd_params, apply_deploy_rulebook; common.apply as a table REGENERATED from the "
+       "real function on every run): the shown lines are exactly the yielded rows/exits at depth len(path)-1; sent paths = shown paths "
+       "with repeated paths dropped (exact law); equality under NoDupPaths; the stream is before ++ body ++ after with body = the paths in "
+       "order and only level-0 wrapper commands added; with do_commit=false no commit command is sent (decide +kernel over the regenerated "
+       "table) and make_patch drops force_commit items; rule parameters are those of the unique matching chain under disjoint sibling "
+       "languages. 'Exactly once' is false of the code for repeated block paths: 2 kernel-checked witnesses, 3 recorded findings (F09a). "
+       "Tie: formatter.patch/cmd_paths, apply_deploy_rulebook and CliDeployerJob.parse_result vs the model on 36k (quick) cases.",
+  note=COMMON_NOTE + "set-style formatters (juniper, ribbon, nokia, routeros) are oracle-only on the formatter side; deploy rule rows "
+       "outside the grammar are matched by CPython re (shipped as data); %apply_logic functions are the regenerated table.",
+  design="§5 C09", technique="Lean 4 proof (formatter stream lemmas, table theorem by decide +kernel over a regenerated table) + translation + differential correspondence"),
 }
 REASONS = {}
 PENDING = {"C04": "merged, being re-pointed to the repaired code (fixes c926070, 13137d1)", "C13": "temporarily withdrawn: model being re-pointed to the repaired code (fix 33969c0); see DESIGN.md 11"}
